@@ -55,6 +55,7 @@ def run(ctx):
     out = SP.run_streams(ctx, MASK, monitor, 'overbook-contract', [
         ('G-sim-overbook', 320, 6000, dict(algo='overbook')),
         ('G-sim-saturate-overbook', 60, 1000, dict(saturate='overbook')),
+        ('G-sim-overbook-abandon', 80, 1500, dict(abandon=True)),
     ])
     out['rule'] = ('whole run_simulator runs with the overbook scheduler, overcommit on, pools small enough that the '
                    'pool-level killer fires repeatedly (three-failure abandonment), DAG pipelines; compared per tick: '
